@@ -4,55 +4,55 @@ From Crux Require Import Cli.Format Cli.Pipeline.
 Import ListNotations.
 Open Scope string_scope.
 
-Definition i0 : item := mkItem ("crux_kv", 0%N) (Some "effect") KField false None (Some (FTypeName "PhantomData")) None.
-Definition i1 : item := mkItem ("crux_kv", 3%N) (Some "event") KField false None (Some (FTypeName "PhantomData")) None.
-Definition i2 : item := mkItem ("crux_kv", 4%N) (Some "KeyValue") (KStructPlain [0%N; 3%N]) false None None None.
-Definition i3 : item := mkItem ("crux_kv", 13%N) (Some "KeyValueError") (KEnum [62%N; 63%N; 64%N; 66%N]) false None None None.
-Definition i4 : item := mkItem ("crux_kv", 22%N) (Some "KeyValueOperation") (KEnum [170%N; 173%N; 175%N; 177%N; 180%N]) false None None None.
-Definition i5 : item := mkItem ("crux_kv", 61%N) (Some "message") KField false (Some "message") (Some (FPrim PStr)) None.
-Definition i6 : item := mkItem ("crux_kv", 62%N) (Some "Io") (KVariantStruct [61%N]) false (Some "io") None None.
-Definition i7 : item := mkItem ("crux_kv", 63%N) (Some "Timeout") KVariantPlain false (Some "timeout") None None.
-Definition i8 : item := mkItem ("crux_kv", 64%N) (Some "CursorNotFound") KVariantPlain false (Some "cursorNotFound") None None.
-Definition i9 : item := mkItem ("crux_kv", 65%N) (Some "message") KField false (Some "message") (Some (FPrim PStr)) None.
-Definition i10 : item := mkItem ("crux_kv", 66%N) (Some "Other") (KVariantStruct [65%N]) false (Some "other") None None.
-Definition i11 : item := mkItem ("crux_kv", 129%N) (Some "None") KVariantPlain false (Some "None") None None.
-Definition i12 : item := mkItem ("crux_kv", 130%N) (Some "0") KField false (Some "0") (Some (FPrim PBytes)) None.
-Definition i13 : item := mkItem ("crux_kv", 131%N) (Some "Bytes") (KVariantTuple [130%N]) false (Some "Bytes") None None.
-Definition i14 : item := mkItem ("crux_kv", 132%N) (Some "Value") (KEnum [129%N; 131%N]) false None None None.
-Definition i15 : item := mkItem ("crux_kv", 169%N) (Some "key") KField false (Some "key") (Some (FPrim PStr)) None.
-Definition i16 : item := mkItem ("crux_kv", 170%N) (Some "Get") (KVariantStruct [169%N]) false (Some "Get") None None.
-Definition i17 : item := mkItem ("crux_kv", 171%N) (Some "key") KField false (Some "key") (Some (FPrim PStr)) None.
-Definition i18 : item := mkItem ("crux_kv", 172%N) (Some "value") KField false (Some "value") (Some (FPrim PBytes)) None.
-Definition i19 : item := mkItem ("crux_kv", 173%N) (Some "Set") (KVariantStruct [171%N; 172%N]) false (Some "Set") None None.
-Definition i20 : item := mkItem ("crux_kv", 174%N) (Some "key") KField false (Some "key") (Some (FPrim PStr)) None.
-Definition i21 : item := mkItem ("crux_kv", 175%N) (Some "Delete") (KVariantStruct [174%N]) false (Some "Delete") None None.
-Definition i22 : item := mkItem ("crux_kv", 176%N) (Some "key") KField false (Some "key") (Some (FPrim PStr)) None.
-Definition i23 : item := mkItem ("crux_kv", 177%N) (Some "Exists") (KVariantStruct [176%N]) false (Some "Exists") None None.
-Definition i24 : item := mkItem ("crux_kv", 178%N) (Some "prefix") KField false (Some "prefix") (Some (FPrim PStr)) None.
-Definition i25 : item := mkItem ("crux_kv", 179%N) (Some "cursor") KField false (Some "cursor") (Some (FPrim PU64)) None.
-Definition i26 : item := mkItem ("crux_kv", 180%N) (Some "ListKeys") (KVariantStruct [178%N; 179%N]) false (Some "ListKeys") None None.
-Definition i27 : item := mkItem ("crux_kv", 210%N) (Some "Output") KOther false None None None.
-Definition i28 : item := mkItem ("crux_kv", 211%N) (Some "KeyValueResult") (KEnum [216%N; 218%N]) false None None None.
-Definition i29 : item := mkItem ("crux_kv", 214%N) (Some "response") KField false (Some "response") (Some (FTypeName "KeyValueResponse")) None.
-Definition i30 : item := mkItem ("crux_kv", 215%N) (Some "KeyValueResponse") (KEnum [255%N; 257%N; 259%N; 261%N; 264%N]) false None None None.
-Definition i31 : item := mkItem ("crux_kv", 216%N) (Some "Ok") (KVariantStruct [214%N]) false (Some "Ok") None None.
-Definition i32 : item := mkItem ("crux_kv", 217%N) (Some "error") KField false (Some "error") (Some (FTypeName "KeyValueError")) None.
-Definition i33 : item := mkItem ("crux_kv", 218%N) (Some "Err") (KVariantStruct [217%N]) false (Some "Err") None None.
-Definition i34 : item := mkItem ("crux_kv", 254%N) (Some "value") KField false (Some "value") (Some (FTypeName "Value")) None.
-Definition i35 : item := mkItem ("crux_kv", 255%N) (Some "Get") (KVariantStruct [254%N]) false (Some "Get") None None.
-Definition i36 : item := mkItem ("crux_kv", 256%N) (Some "previous") KField false (Some "previous") (Some (FTypeName "Value")) None.
-Definition i37 : item := mkItem ("crux_kv", 257%N) (Some "Set") (KVariantStruct [256%N]) false (Some "Set") None None.
-Definition i38 : item := mkItem ("crux_kv", 258%N) (Some "previous") KField false (Some "previous") (Some (FTypeName "Value")) None.
-Definition i39 : item := mkItem ("crux_kv", 259%N) (Some "Delete") (KVariantStruct [258%N]) false (Some "Delete") None None.
-Definition i40 : item := mkItem ("crux_kv", 260%N) (Some "is_present") KField false (Some "is_present") (Some (FPrim PBool)) None.
-Definition i41 : item := mkItem ("crux_kv", 261%N) (Some "Exists") (KVariantStruct [260%N]) false (Some "Exists") None None.
-Definition i42 : item := mkItem ("crux_kv", 262%N) (Some "keys") KField false (Some "keys") (Some (FSeq (FPrim PStr))) None.
-Definition i43 : item := mkItem ("crux_kv", 263%N) (Some "next_cursor") KField false (Some "next_cursor") (Some (FPrim PU64)) None.
-Definition i44 : item := mkItem ("crux_kv", 264%N) (Some "ListKeys") (KVariantStruct [262%N; 263%N]) false (Some "ListKeys") None None.
-Definition i45 : item := mkItem ("crux_kv", 294%N) (Some "context") KField false None (Some (FTypeName "CapabilityContext")) None.
-Definition i46 : item := mkItem ("crux_kv", 296%N) (Some "KeyValue") (KStructPlain [294%N]) false None None None.
-Definition i47 : item := mkItem ("crux_kv", 326%N) (Some "Operation") KOther false None None None.
-Definition i48 : item := mkItem ("crux_kv", 327%N) (Some "MappedSelf") KOther false None None None.
+Definition i0 : item := mkItem ("crux_kv", 0%N) (Some "effect") (Some "effect") KField false None (Some (FTypeName "PhantomData")) None.
+Definition i1 : item := mkItem ("crux_kv", 3%N) (Some "event") (Some "event") KField false None (Some (FTypeName "PhantomData")) None.
+Definition i2 : item := mkItem ("crux_kv", 4%N) (Some "KeyValue") (Some "KeyValue") (KStructPlain [0%N; 3%N]) false None None None.
+Definition i3 : item := mkItem ("crux_kv", 13%N) (Some "KeyValueError") (Some "KeyValueError") (KEnum [62%N; 63%N; 64%N; 66%N]) false None None None.
+Definition i4 : item := mkItem ("crux_kv", 22%N) (Some "KeyValueOperation") (Some "KeyValueOperation") (KEnum [170%N; 173%N; 175%N; 177%N; 180%N]) false None None None.
+Definition i5 : item := mkItem ("crux_kv", 61%N) (Some "message") (Some "message") KField false (Some "message") (Some (FPrim PStr)) None.
+Definition i6 : item := mkItem ("crux_kv", 62%N) (Some "Io") (Some "Io") (KVariantStruct [61%N]) false (Some "io") None None.
+Definition i7 : item := mkItem ("crux_kv", 63%N) (Some "Timeout") (Some "Timeout") KVariantPlain false (Some "timeout") None None.
+Definition i8 : item := mkItem ("crux_kv", 64%N) (Some "CursorNotFound") (Some "CursorNotFound") KVariantPlain false (Some "cursorNotFound") None None.
+Definition i9 : item := mkItem ("crux_kv", 65%N) (Some "message") (Some "message") KField false (Some "message") (Some (FPrim PStr)) None.
+Definition i10 : item := mkItem ("crux_kv", 66%N) (Some "Other") (Some "Other") (KVariantStruct [65%N]) false (Some "other") None None.
+Definition i11 : item := mkItem ("crux_kv", 129%N) (Some "None") (Some "None") KVariantPlain false (Some "None") None None.
+Definition i12 : item := mkItem ("crux_kv", 130%N) (Some "0") (Some "0") KField false (Some "0") (Some (FPrim PBytes)) None.
+Definition i13 : item := mkItem ("crux_kv", 131%N) (Some "Bytes") (Some "Bytes") (KVariantTuple [130%N]) false (Some "Bytes") None None.
+Definition i14 : item := mkItem ("crux_kv", 132%N) (Some "Value") (Some "Value") (KEnum [129%N; 131%N]) false None None None.
+Definition i15 : item := mkItem ("crux_kv", 169%N) (Some "key") (Some "key") KField false (Some "key") (Some (FPrim PStr)) None.
+Definition i16 : item := mkItem ("crux_kv", 170%N) (Some "Get") (Some "Get") (KVariantStruct [169%N]) false (Some "Get") None None.
+Definition i17 : item := mkItem ("crux_kv", 171%N) (Some "key") (Some "key") KField false (Some "key") (Some (FPrim PStr)) None.
+Definition i18 : item := mkItem ("crux_kv", 172%N) (Some "value") (Some "value") KField false (Some "value") (Some (FPrim PBytes)) None.
+Definition i19 : item := mkItem ("crux_kv", 173%N) (Some "Set") (Some "Set") (KVariantStruct [171%N; 172%N]) false (Some "Set") None None.
+Definition i20 : item := mkItem ("crux_kv", 174%N) (Some "key") (Some "key") KField false (Some "key") (Some (FPrim PStr)) None.
+Definition i21 : item := mkItem ("crux_kv", 175%N) (Some "Delete") (Some "Delete") (KVariantStruct [174%N]) false (Some "Delete") None None.
+Definition i22 : item := mkItem ("crux_kv", 176%N) (Some "key") (Some "key") KField false (Some "key") (Some (FPrim PStr)) None.
+Definition i23 : item := mkItem ("crux_kv", 177%N) (Some "Exists") (Some "Exists") (KVariantStruct [176%N]) false (Some "Exists") None None.
+Definition i24 : item := mkItem ("crux_kv", 178%N) (Some "prefix") (Some "prefix") KField false (Some "prefix") (Some (FPrim PStr)) None.
+Definition i25 : item := mkItem ("crux_kv", 179%N) (Some "cursor") (Some "cursor") KField false (Some "cursor") (Some (FPrim PU64)) None.
+Definition i26 : item := mkItem ("crux_kv", 180%N) (Some "ListKeys") (Some "ListKeys") (KVariantStruct [178%N; 179%N]) false (Some "ListKeys") None None.
+Definition i27 : item := mkItem ("crux_kv", 210%N) (Some "Output") (Some "Output") KOther false None None None.
+Definition i28 : item := mkItem ("crux_kv", 211%N) (Some "KeyValueResult") (Some "KeyValueResult") (KEnum [216%N; 218%N]) false None None None.
+Definition i29 : item := mkItem ("crux_kv", 214%N) (Some "response") (Some "response") KField false (Some "response") (Some (FTypeName "KeyValueResponse")) None.
+Definition i30 : item := mkItem ("crux_kv", 215%N) (Some "KeyValueResponse") (Some "KeyValueResponse") (KEnum [255%N; 257%N; 259%N; 261%N; 264%N]) false None None None.
+Definition i31 : item := mkItem ("crux_kv", 216%N) (Some "Ok") (Some "Ok") (KVariantStruct [214%N]) false (Some "Ok") None None.
+Definition i32 : item := mkItem ("crux_kv", 217%N) (Some "error") (Some "error") KField false (Some "error") (Some (FTypeName "KeyValueError")) None.
+Definition i33 : item := mkItem ("crux_kv", 218%N) (Some "Err") (Some "Err") (KVariantStruct [217%N]) false (Some "Err") None None.
+Definition i34 : item := mkItem ("crux_kv", 254%N) (Some "value") (Some "value") KField false (Some "value") (Some (FTypeName "Value")) None.
+Definition i35 : item := mkItem ("crux_kv", 255%N) (Some "Get") (Some "Get") (KVariantStruct [254%N]) false (Some "Get") None None.
+Definition i36 : item := mkItem ("crux_kv", 256%N) (Some "previous") (Some "previous") KField false (Some "previous") (Some (FTypeName "Value")) None.
+Definition i37 : item := mkItem ("crux_kv", 257%N) (Some "Set") (Some "Set") (KVariantStruct [256%N]) false (Some "Set") None None.
+Definition i38 : item := mkItem ("crux_kv", 258%N) (Some "previous") (Some "previous") KField false (Some "previous") (Some (FTypeName "Value")) None.
+Definition i39 : item := mkItem ("crux_kv", 259%N) (Some "Delete") (Some "Delete") (KVariantStruct [258%N]) false (Some "Delete") None None.
+Definition i40 : item := mkItem ("crux_kv", 260%N) (Some "is_present") (Some "is_present") KField false (Some "is_present") (Some (FPrim PBool)) None.
+Definition i41 : item := mkItem ("crux_kv", 261%N) (Some "Exists") (Some "Exists") (KVariantStruct [260%N]) false (Some "Exists") None None.
+Definition i42 : item := mkItem ("crux_kv", 262%N) (Some "keys") (Some "keys") KField false (Some "keys") (Some (FSeq (FPrim PStr))) None.
+Definition i43 : item := mkItem ("crux_kv", 263%N) (Some "next_cursor") (Some "next_cursor") KField false (Some "next_cursor") (Some (FPrim PU64)) None.
+Definition i44 : item := mkItem ("crux_kv", 264%N) (Some "ListKeys") (Some "ListKeys") (KVariantStruct [262%N; 263%N]) false (Some "ListKeys") None None.
+Definition i45 : item := mkItem ("crux_kv", 294%N) (Some "context") (Some "context") KField false None (Some (FTypeName "CapabilityContext")) None.
+Definition i46 : item := mkItem ("crux_kv", 296%N) (Some "KeyValue") (Some "KeyValue") (KStructPlain [294%N]) false None None None.
+Definition i47 : item := mkItem ("crux_kv", 326%N) (Some "Operation") (Some "Operation") KOther false None None None.
+Definition i48 : item := mkItem ("crux_kv", 327%N) (Some "MappedSelf") (Some "MappedSelf") KOther false None None None.
 Definition items : list item := [i0; i1; i2; i3; i4; i5; i6; i7; i8; i9; i10; i11; i12; i13; i14; i15; i16; i17; i18; i19; i20; i21; i22; i23; i24; i25; i26; i27; i28; i29; i30; i31; i32; i33; i34; i35; i36; i37; i38; i39; i40; i41; i42; i43; i44; i45; i46; i47; i48].
 Definition edge_list : edges := [(i3, i6); (i3, i7); (i3, i8); (i3, i10); (i4, i16); (i4, i19); (i4, i21); (i4, i23); (i4, i26); (i6, i5); (i10, i9); (i13, i12); (i14, i11); (i14, i13); (i16, i15); (i19, i17); (i19, i18); (i21, i20); (i23, i22); (i26, i24); (i26, i25); (i28, i31); (i28, i33); (i29, i30); (i30, i35); (i30, i37); (i30, i39); (i30, i41); (i30, i44); (i31, i29); (i32, i3); (i33, i32); (i34, i14); (i35, i34); (i36, i14); (i37, i36); (i38, i14); (i39, i38); (i41, i40); (i44, i42); (i44, i43)].
 Definition edge_flags : list (bool * bool) := [(false, true); (false, true); (false, true); (false, true); (false, true); (false, true); (false, true); (false, true); (false, true); (true, false); (true, false); (true, false); (false, true); (false, true); (true, false); (true, false); (true, false); (true, false); (true, false); (true, false); (true, false); (false, true); (false, true); (false, false); (false, true); (false, true); (false, true); (false, true); (false, true); (true, false); (false, false); (true, false); (false, false); (true, false); (false, false); (true, false); (false, false); (true, false); (true, false); (true, false); (true, false)].
